@@ -54,6 +54,7 @@ Proof.
   intros H. apply andb_true_iff in H. destruct H as [H Hk]. apply andb_true_iff in H. destruct H as [Hp Hs].
   apply beq_eq in Hp, Hs. subst. destruct k, k'; try discriminate; reflexivity.
 Qed.
+Print Assumptions entry_eqb_eq.
 
 Theorem C17i_phone_migrate_row : In pm_entry shipped.
 Proof.
@@ -86,6 +87,7 @@ Proof.
   intros H. pose proof C17i_all_int as Ha. rewrite forallb_forall in Ha. specialize (Ha e H).
   destruct (e_kind e); congruence.
 Qed.
+Print Assumptions shipped_kind.
 
 (* every shipped row, every Go int *)
 Theorem C17i_expand : forall e n, In e shipped -> in_int n = true ->
@@ -173,6 +175,7 @@ Example C17i_examples :
   omap snd (handle shipped shipped_cat shipped_dcs 303 (lit "PHONE_MIGRATE_X")) = Ok Return /\
   omap snd (handle shipped shipped_cat shipped_dcs 303 (lit "PHONE_MIGRATE_9")) = Ok NoSuchDC.
 Proof. vm_compute. repeat split; reflexivity. Qed.
+Print Assumptions C17i_examples.
 
 (* the pinned code on the same tables: the two panics *)
 Example C17i_refuted_before_fix :
@@ -181,6 +184,7 @@ Example C17i_refuted_before_fix :
   expand_unfixed shipped (lit "FILE_PART_MISSING") = Panic /\
   process_err_unfixed shipped_dcs (lit "PHONE_MIGRATE_X") ANone = Panic.
 Proof. vm_compute. repeat split; reflexivity. Qed.
+Print Assumptions C17i_refuted_before_fix.
 
 (* several clients, today's default list: a client that never configured DC x itself and
    whose x is not in the default list gets "DC not found", whatever the other clients did *)
